@@ -99,7 +99,7 @@ Definition room_sets (rooms : list nat) (nd : node) (a : assignment) : out (opti
       | Val None => Panic 10                               (* .unwrap(): cannot fail because all_required is not set *)
       | Val (Some always) =>
         let range := firstn (upper - lower) (skipn lower cs) in
-        let sels := map (fun idx => map (fun ix => fst (nth ix range (0, 0))) idx) (selections (length range) k) in
+        let sels := map (fun idx => map (fun ix => fst (nth ix range (0, 0))) idx) (selections_fast (length range) k) in
         match build_sets nd sels room_size always [] with
         | Panic s => Panic s | HOverflow => HOverflow
         | Val sets => Val (Some sets)
